@@ -3,6 +3,7 @@ CONSTANT Limits = {"pi", "low", "inf"}
 CONSTANT Fits = {"dlite", "taubinSVD"}
 CONSTANT BModes = {"static", "velocity"}
 CONSTANT PressuresKeyed = FALSE
+CONSTANT ExcludedReset = FALSE
 CONSTANT WalkLen = 12
 VIEW View
 CHECK_DEADLOCK FALSE
